@@ -679,6 +679,7 @@ def stepSimple (s : LSt) (op : Op) : Option (LSt × String) :=
   | .masgK j i =>
     match aget s.K j, aget s.K i with
     | some old, some p =>
+      if j = i then ok s "self" else
       ok { (disconnect s old) with K := aset (aset s.K i none) j p } "ok"
     | _, _ => ok s "dead"
   | .swapK i j =>
